@@ -1,27 +1,25 @@
 #!/bin/bash
 # usage: confirm_mutant.sh <outdir e.g. /tmp/mut-C05-out/1> <name e.g. C05-1>
 # Confirms, in a scratch worktree: demo passes without the patch, fails with it, and the whole suite passes with it.
+# The suite runs in a private mount namespace with its own /tmp (some tests use fixed names under /tmp and other
+# jobs run the same suite concurrently); packages that fail are re-run once alone (timing-sensitive tests under load).
 set -u
 SRC=$1; NAME=$2
-WT=/tmp/cf-$NAME
-LOG=/tmp/cf-$NAME.log
+WT=/dev/shm/cf-$NAME
+LOG=/dev/shm/cf-$NAME.log
 : > $LOG
 git -C /repo worktree remove --force $WT 2>/dev/null
 git -C /repo worktree add --detach $WT HEAD -q || exit 2
-export GOFLAGS=-mod=mod GOPROXY=off TMPDIR=/tmp/cf-$NAME-tmp
-mkdir -p $TMPDIR
+export GOFLAGS=-mod=mod GOPROXY=off
 cd $WT
 pkgdir() { case "$(grep -m1 '^package' "$1" | awk '{print $2}')" in scorch) echo index/scorch;; *) echo .;; esac; }
-tests=""
-for f in $SRC/*_test.go; do
-  d=$(pkgdir $f); cp $f $d/zz_$(basename $f)
-  tests="$tests $(grep -o '^func Test[A-Za-z0-9_]*' $f | sed 's/func //' | tr '\n' '|')"
-done
+for f in $SRC/*_test.go; do d=$(pkgdir $f); cp $f $d/zz_$(basename $f); done
+inns() { unshare -m bash -c "mount -t tmpfs tmpfs /tmp || exit 99; cd $WT || exit 98; $1"; }
 run_demos() {
   rc=0
   for f in $SRC/*_test.go; do
     d=$(pkgdir $f); pat=$(grep -o '^func Test[A-Za-z0-9_]*' $f | sed 's/func //' | paste -sd'|')
-    (cd $d && go test -vet=off -count=1 -timeout 15m -run "^($pat)\$" . ) >> $LOG 2>&1 || rc=1
+    inns "cd $d && go test -vet=off -count=1 -timeout 15m -run '^($pat)\$' ." >> $LOG 2>&1 || rc=1
   done
   return $rc
 }
@@ -30,10 +28,17 @@ run_demos; without=$?
 git apply $SRC/patch.diff >> $LOG 2>&1 || { echo "$NAME: patch does not apply"; exit 2; }
 echo "--- demos WITH patch" >> $LOG
 run_demos; with=$?
-# full suite with the patch (demos removed)
 rm -f ./zz_*_test.go index/scorch/zz_*_test.go
 echo "--- full suite WITH patch" >> $LOG
-go test -vet=off -count=1 -timeout 25m ./... > /tmp/cf-$NAME.suite 2>&1; suite=$?
-nfail=$(grep -c "^FAIL\|^--- FAIL" /tmp/cf-$NAME.suite)
-echo "$NAME: demos without patch rc=$without (want 0), with patch rc=$with (want 1), suite rc=$suite fails=$nfail (want 0)"
-cd /; git -C /repo worktree remove --force $WT; rm -rf $TMPDIR
+inns "go test -vet=off -count=1 -timeout 25m ./..." > /dev/shm/cf-$NAME.suite 2>&1; suite=$?
+failed=$(grep "^FAIL	" /dev/shm/cf-$NAME.suite | awk '{print $2}' | sed 's|github.com/blevesearch/bleve/v2|.|')
+retry=""
+if [ -n "$failed" ]; then
+  suite=0
+  for p in $failed; do
+    inns "go test -vet=off -count=1 -timeout 25m $p" > /dev/shm/cf-$NAME.retry 2>&1 || { suite=1; retry="$retry $p(still fails: $(grep -m2 '^--- FAIL' /dev/shm/cf-$NAME.retry | tr '\n' ' '))"; }
+  done
+  [ $suite = 0 ] && retry=" (first run failed in:$(echo $failed | tr '\n' ' '); passed when re-run alone)"
+fi
+echo "$NAME: demos without patch rc=$without (want 0), with patch rc=$with (want 1), suite rc=$suite (want 0)$retry"
+cd /; git -C /repo worktree remove --force $WT
